@@ -51,11 +51,14 @@ THEOREMS = [
     "Ffcx.LNodes.Fmt.eraseC_norm",
     "Ffcx.LNodes.Fmt.roundtrip_C",
     "Ffcx.LNodes.Fmt.roundtrip_C_WT",
+    "Ffcx.LNodes.Fmt.wfC_not_raises",
+    "Ffcx.LNodes.Fmt.format_C_total",
     "Ffcx.LNodes.Fmt.literal_texts_are_tokens",
     "Ffcx.LNodes.Fmt.norm_eval",
     # C statements (full): text -> tokens -> statement tree
     "Ffcx.LNodes.Fmt.stmt_lex",
     "Ffcx.LNodes.Fmt.parse_tokens_stmt",
+    "Ffcx.LNodes.Fmt.wfS_not_raises",
     "Ffcx.LNodes.Fmt.roundtrip_stmt_C",
     "Ffcx.LNodes.Fmt.roundtrip_stmt_C_counterexample",
     # numba statements (full): text -> lines -> tokens with NEWLINE/INDENT/DEDENT -> statement tree
@@ -89,7 +92,7 @@ HELPER_FILES = ["FfcxProofs/Lemmas/" + f for f in (
     "FormatTables.lean", "FormatParse.lean", "FormatRT.lean", "FormatRTCases.lean", "FormatRTAll.lean",
     "FormatLex.lean", "FormatSep.lean", "FormatSepExpr.lean", "FormatNorm.lean", "FormatNum.lean",
     "FormatLit.lean", "FormatStmt.lean", "FormatPy.lean", "FormatEval.lean", "FormatShape.lean",
-    "FormatStmtLex.lean", "FormatStmtParse.lean", "FormatStmtText.lean",
+    "FormatStmtLex.lean", "FormatStmtParse.lean", "FormatStmtText.lean", "FormatRaise.lean",
     "FormatPyParse.lean", "FormatPyRT.lean", "FormatPyRTCases.lean", "FormatPyRTAll.lean",
     "FormatPyLex.lean", "FormatPySep.lean", "FormatPySepExpr.lean", "FormatPyShape.lean", "FormatPyNorm.lean",
     "FormatPyStmtParse.lean", "FormatPyLines.lean", "FormatPyStmtLx.lean", "FormatPyStmtText.lean")]
@@ -142,6 +145,12 @@ def child_variants():
         ("MathFunction:2", "a", L.MathFunction("power", [y, x])),
         ("MathFunction:bessel", "a", L.MathFunction("bessel_j", [L.LiteralInt(1), x])),
         ("MathFunction:erf", "a", L.MathFunction("erf", [x])),
+        # the table is chosen by ANY argument being SCALAR; no complex version => the C formatter raises
+        ("MathFunction:mixed", "a", L.MathFunction("power", [x, y])),
+        ("MathFunction:erf-scalar", "a", L.MathFunction("erf", [y])),
+        ("MathFunction:atan2-mixed", "a", L.MathFunction("atan_2", [x, y])),
+        ("MathFunction:min-scalar", "a", L.MathFunction("min_value", [y, x])),
+        ("MathFunction:unknown", "a", L.MathFunction("foo", [y])),
         ("ArrayAccess:1", "a", L.ArrayAccess(T, [i])),
         ("ArrayAccess:2", "a", L.ArrayAccess(U, [i, L.LiteralInt(0)])),
         ("Conditional", "a", L.Conditional(c1, x, y)),
@@ -330,7 +339,9 @@ def lnodes_tuple(e, lang, scalar="float64"):
         return acc
     if t is L.MathFunction:
         if lang == "c":
-            ty = REAL_OF[scalar] if e.args[0].dtype == REAL else scalar
+            # the C function that denotes the LNodes function for these argument types: the
+            # <complex.h> version iff some argument is complex valued (dtype SCALAR in a complex build)
+            ty = scalar if any(getattr(a, "dtype", None) == SCALAR for a in e.args) else REAL_OF[scalar]
             name = math_table[ty].get(e.function, e.function)
         else:
             name = _PY_FUNC.get(e.function, "np." + e.function)
@@ -877,6 +888,7 @@ class Ctx:
         self.lit_count = 0
         self.lit_over = 0
         self.negzero_skipped = 0
+        self.raising_c = 0
         self.unrepresentable = 0
         self.viol_seen = set()
         self.in_kernels = {}
@@ -925,8 +937,16 @@ def check_expr(cx, label, wt, e, scalars, do_py=True):
         r = d.ask(f"(exprC {sc} {sx})")
         model = r[1] if r[0] == "res" else None
         chk.case("expr-c", key=f"{label}:{sc}" if not label.startswith("rand") else None)
-        if st == "raise":
-            chk.disagree("C formatter raises on an exported tree", {"tree": sx, "scalar": sc, "impl": real})
+        model_raises = r[0] == "res" and len(r) > 6 and r[6] == "true"
+        if st == "raise" or model_raises:
+            # a raising call (math function without a complex version, complex argument) is a
+            # correspondence case: the model says error <=> the real formatter raises
+            cx.raising_c += 1
+            if (st == "raise") != model_raises:
+                chk.disagree("C formatter raising: real vs Lean model",
+                             {"tree": sx, "scalar": sc, "impl": real if st == "raise" else "(no exception)", "model_raises": model_raises})
+            if model_raises and r[4] == "true":
+                chk.disagree("evaluation contradicts format_C_total (wfC holds, the model formatter raises)", {"tree": sx, "scalar": sc})
             continue
         in_sync = model == real
         if not in_sync:  # the search below runs on the REAL text regardless
@@ -1410,6 +1430,8 @@ def run(chk):
         chk.notes["literals"] = {"checked": cx.lit_count, "over_1ulp": cx.lit_over, "worst": cx.lit_worst}
         chk.notes["violations_seen_in_generated_kernels"] = cx.in_kernels
         chk.notes["skipped_negative_zero"] = cx.negzero_skipped
+        chk.notes["c_formatter_raising_cases"] = cx.raising_c  # real raises <=> model raises, checked on each
+        chk.notes["full_theorem_hypotheses"] = cx.coverage  # wfC / wfPy / wfS / wfSPy on every evaluated tree
         chk.notes["skipped_unrepresentable_initialiser"] = cx.unrepresentable
         res = confirm_with_compiler(cx)
         if res.get("compiler"):
